@@ -15,3 +15,4 @@ for prop in "$@"; do
   grep -E '^(VIOLATION|FAILED|ENGINE)' "$VERIF_OUT_DIR/$prop.log" | head -8
   grep -E 'undischarged|not discharged|FAIL ' "$VERIF_OUT_DIR/$prop.log" | head -8
 done
+rm -rf "$VERIF_OUT_DIR/smt"
